@@ -157,6 +157,25 @@ func runC07(c *eng.Ctx) {
 		c.Ob("SIB-mark", eng.FuncName(fn)+" marks-via-MarkNeedleDeleted", ok, fn.Pos(), "the deleter marks the sorted index entry through the shared MarkNeedleDeleted")
 	}
 
+	// (3b) a delete on a sorted-index volume is recorded in the .idx first and marked in the sorted index only when that
+	// succeeded: a delete that reports an error leaves both files saying "live", and the index rebuilt from the .idx
+	// agrees with the sorted index
+	if fn := c.NeedFunc("weed/storage", "(*SortedFileNeedleMap).Delete"); fn != nil {
+		app := eng.Find(fn, eng.PlainCallTo("storage.baseNeedleMapper).appendToIndexFile", "storage.SortedFileNeedleMap).appendToIndexFile"))
+		var marks []ssa.Instruction
+		for _, call := range eng.Find(fn, eng.PlainCallTo("erasure_coding.SearchNeedleFromSortedIndex")) {
+			if isMarkGlobal(eng.Arg(call.(*ssa.Call), 3)) {
+				marks = append(marks, call)
+			}
+		}
+		if len(app) != 1 || len(marks) == 0 {
+			c.Undecided("ORDER-journal", eng.FuncName(fn), fn.Pos(), "index append / mark not found")
+		} else {
+			c.Guard("ORDER-journal", "mark-only-after-idx-append", fn, eng.Entry(fn), marks, eng.PassEdges(fn, eng.ErrNil(eng.ErrOf(app[0]))),
+				"the sorted index entry is marked deleted only after the tombstone was appended to the .idx successfully")
+		}
+	}
+
 	// (4) journal append
 	if fn := c.NeedFunc("weed/storage/erasure_coding", "(*EcVolume).DeleteNeedleFromEcx"); fn != nil {
 		search := eng.Find(fn, eng.PlainCallTo("erasure_coding.SearchNeedleFromSortedIndex"))
